@@ -53,7 +53,7 @@ def run(tier, seed, work, replay):
     for f in glob.glob(rlog + ".*"):
         for rep in open(f).read().split("=================="):
             if "DATA RACE" in rep:
-                fr = [x for x in re.findall(r"/repo/cmd/keymasterd/([A-Za-z0-9_]+\.go):(\d+)", rep) if not x[0].startswith("zz_verif")]
+                fr = [x for x in re.findall(re.escape(E.REPO) + r"/cmd/keymasterd/([A-Za-z0-9_]+\.go):(\d+)", rep) if not x[0].startswith("zz_verif")]
                 if fr:
                     races.append(sorted(set(fr))[:6])
     cov["race_reports_with_keymaster_frames"] = len(races)
